@@ -48,7 +48,16 @@ func genLoadStyle(t *rapid.T) rc.LoadStyle {
 		EndLine:    rapid.Bool().Draw(t, "endline"),
 		TrailCmt:   rapid.IntRange(0, 3).Draw(t, "trailcmt") == 0,
 		NoFinalNL:  rapid.IntRange(0, 2).Draw(t, "nofinalnl") == 0,
+		LongLine:   longLine(t),
 	}
+}
+
+// longLine: rarely, a comment longer than the usual buffer sizes (4 KiB, 64 KiB)
+func longLine(t *rapid.T) int {
+	if gen.Rare(t, "longline", 5) {
+		return rapid.SampledFrom([]int{4095, 4096, 4097, 5000, 65535, 65536, 65537, 70000, 200000}).Draw(t, "longlen")
+	}
+	return 0
 }
 
 func genLoadCase(t *rapid.T) loadCase {
@@ -108,7 +117,8 @@ func judgeLoadCase(c loadCase, rec *hx.Rec) string {
 		add(st.Signed, "signed_fields")
 		add(st.Comments, "comments")
 		add(st.Meta, "metadata")
-		perturbed := st.CaseVar || st.Blanks || st.CRLF || st.BlankLines || st.Comments || st.Meta || st.NoFinalNL || st.TrailCmt
+		add(st.LongLine > 0, "comment_longer_than_4k")
+		perturbed := st.LongLine > 0 || st.CaseVar || st.Blanks || st.CRLF || st.BlankLines || st.Comments || st.Meta || st.NoFinalNL || st.TrailCmt
 		nt := len(c.Code) >= 2 && (c.Start != 0 || st.Signed) && perturbed
 		rec.Case(nt, hx.HashJSON(c), func() any { return map[string]any{"cfg": c.Cfg, "text": text} }, cl...)
 	}
